@@ -6,7 +6,8 @@
 // SUM, MIN, MAX, AVG, PERCENTILE, BOOL_AND, BOOL_OR, with GROUP BY / WHERE / HAVING); STDDEV / VARIANCE on values whose
 // sums are exactly representable, compared to 9 decimals; every cut of every sequence of up to 4 lines into two parts for
 // COUNT / SUM / MIN / MAX per group.
-// Also: the table produced after every line (multisets of up to 3 lines, 5 statements) ends the same for every permutation; every cut
+// Also: COUNT(DISTINCT) over 20 distinct values with repeats in 32 orders; lines that start with a byte order mark / blank / tab at every
+// position and as the first line of a second file; the table produced after every line (multisets of up to 3 lines, 5 statements) ends the same for every permutation; every cut
 // also as two input files, the first with and without a final line feed; 11 large INT values (neighbours of 2^53, 10^8, 10^9, the 64-bit ends) in all multisets of 2..3 with MIN / MAX /
 // COUNT(DISTINCT) / STDDEV / VARIANCE / PERCENTILE compared exactly; 12 values whose squares need more than 53 bits in 5 orders.
 include!("verif_grid_common.rs");
@@ -172,6 +173,43 @@ fn verif_grid() {
                     (Outcome::Lines(x, _), Outcome::Lines(y, _)) => if x == y { Ok(()) } else { Err(format!("{} over 12 large values prints {:?}; over a permutation of the same lines it prints {:?}", query, x, y)) },
                     other => Err(format!("{:?}", other)),
                 }
+            });
+        }
+    }
+    // COUNT(DISTINCT) over more distinct values than a small inline store would hold, repeats before and after every size
+    {
+        let mut values: Vec<i64> = (1..=20).collect();
+        values.extend_from_slice(&[9, 9, 10, 1, 5, 17, 18, 18, 20, 8]);
+        let lines: Vec<String> = values.iter().map(|v| format!("k=a v={}", v)).collect();
+        let mut orders: Vec<Vec<String>> = vec![lines.clone(), lines.iter().rev().cloned().collect()];
+        for shift in 1..lines.len() { let mut o = lines.clone(); o.rotate_left(shift); orders.push(o); }
+        let mut repeats_first = lines[20..].to_vec(); repeats_first.extend_from_slice(&lines[..20]); orders.push(repeats_first);
+        let mut pairs: Vec<String> = Vec::new(); for v in 1..=20 { pairs.push(format!("k=a v={}", v)); pairs.push(format!("k=a v={}", v)); } orders.push(pairs);
+        for (oi, order) in orders.into_iter().enumerate() {
+            g.case(&format!("count-distinct-many-{}", oi), move || {
+                let refs: Vec<&str> = order.iter().map(|s| s.as_str()).collect();
+                for query in ["SELECT COUNT(DISTINCT v) AS d FROM t", "SELECT k, COUNT(DISTINCT v) AS d, COUNT(v) AS c FROM t GROUP BY k"] {
+                    match q(T, query, &refs) { Outcome::Lines(l, _) => if l.len() != 1 || !l[0].contains("\"d\":20") { return Err(format!("{} over {} lines holding the 20 values 1..20 (some repeated) in the order {:?} prints {:?}", query, refs.len(), refs.iter().map(|r| &r[6..]).collect::<Vec<_>>(), l)); }, other => return Err(format!("{:?}", other)) }
+                }
+                Ok(())
+            });
+        }
+    }
+    // a line is the same row wherever it stands: first or last in the input, first in a second file (a line that starts with a byte order mark, blanks, a tab)
+    {
+        let def = "CREATE TABLE t(line = split ',', line[1] => k TEXT, line[2] => v INT);";
+        let st = "SELECT k, COUNT(*) AS n, SUM(v) AS s, MIN(v) AS lo, MAX(v) AS hi FROM t GROUP BY k";
+        for (wi, odd) in ["\u{feff}a,1", " a,1", "\ta,1", "a,1 ", "\u{feff}", ",7"].iter().enumerate() {
+            let lines = vec![*odd, "a,2", "b,3"];
+            g.case(&format!("odd-line-position-{}", wi), move || {
+                let reference = match q(def, st, &lines) { Outcome::Lines(l, _) => l, other => return Err(format!("{:?}", other)) };
+                for p in permutations(&lines) {
+                    match q(def, st, &p) { Outcome::Lines(l, _) => if l != reference { return Err(format!("{} over {:?} prints {:?}; over the permutation {:?} it prints {:?}", st, lines, reference, p, l)); }, other => return Err(format!("{:?}", other)) }
+                    for cut in 1..p.len() {
+                        match q_files(def, st, &[p[..cut].to_vec(), p[cut..].to_vec()]) { Outcome::Lines(l, _) => if l != reference { return Err(format!("{} over {:?} prints {:?}; over the same lines as the two files {:?} and {:?} it prints {:?}", st, lines, reference, &p[..cut], &p[cut..], l)); }, other => return Err(format!("{:?}", other)) }
+                    }
+                }
+                Ok(())
             });
         }
     }
